@@ -343,26 +343,102 @@ func init() {
 		o.Site(rets[0], "GroupKey = "+v)
 		o.Check(v == `fmt.Sprintf("%s:%s", [recv.routeKey, recv.labels])`, "gk-shape", "the group key must be routeKey:labels, is "+v, rets[0])
 		rk := o.Fn("(*am/dispatch.Route).Key")
-		// parent's key, then own matchers; nothing else
+		// The key is made of the matchers of the routes on the path from the root to this route and '/'
+		// separators, and of nothing else — by recursion into the parent or by walking the parent links.
 		var wrote []string
-		for _, in := range AllInstrs(rk) {
-			if c, ok := in.(*ssa.Call); ok {
-				cn := calleeName(&c.Call)
-				switch cn {
-				case "(*strings.Builder).WriteString":
-					wrote = append(wrote, e.X(rk, c.Call.Args[1]))
-				case "(*strings.Builder).WriteRune", "(*strings.Builder).WriteByte":
-					wrote = append(wrote, "sep:"+e.X(rk, c.Call.Args[1]))
+		recvP := rk.Params[0]
+		onChain := func(v ssa.Value) (ok, own bool) {
+			ok = true
+			for sv := range e.Sources(v, false) {
+				switch x := sv.(type) {
+				case *ssa.Parameter:
+					if x != recvP {
+						ok = false
+					}
+					own = true
+				case *ssa.Global:
+					ok = false
+				case *ssa.FieldAddr:
+					if n := fieldName(x.X.Type(), x.Field); n != "parent" && n != "Matchers" {
+						ok = false
+					}
+				case *ssa.Call:
+					if _, isB := x.Call.Value.(*ssa.Builtin); !isB {
+						ok = false
+					}
 				}
-				bad := strings.HasPrefix(cn, "time.") || strings.HasPrefix(cn, "math/rand") || strings.HasPrefix(cn, "os.") || strings.HasPrefix(cn, "github.com/google/uuid")
-				o.Check(!bad, "rk-impure", "Route.Key calls "+cn, in)
+			}
+			return ok, own
+		}
+		ownSeen, parentSeen := false, false
+		for _, in := range AllInstrs(rk) {
+			c, ok := in.(*ssa.Call)
+			if !ok {
+				continue
+			}
+			cn := calleeName(&c.Call)
+			bad := strings.HasPrefix(cn, "time.") || strings.HasPrefix(cn, "math/rand") || strings.HasPrefix(cn, "os.") || strings.HasPrefix(cn, "github.com/google/uuid")
+			o.Check(!bad, "rk-impure", "Route.Key calls "+cn, in)
+			switch cn {
+			case "(*strings.Builder).WriteRune", "(*strings.Builder).WriteByte":
+				wrote = append(wrote, "sep:"+e.X(rk, c.Call.Args[1]))
+				o.Check(e.X(rk, c.Call.Args[1]) == "47", "rk-shape", "the only separator of a route key is '/', writes "+e.X(rk, c.Call.Args[1]), in)
+			case "(*strings.Builder).WriteString":
+				wrote = append(wrote, e.X(rk, c.Call.Args[1]))
+				// what is written comes from Matchers.String() of a route on the parent chain, or from the parent's Key()
+				n := 0
+				for sv := range e.Sources(c.Call.Args[1], false) {
+					sc, isC := sv.(*ssa.Call)
+					if !isC {
+						continue
+					}
+					switch calleeName(&sc.Call) {
+					case "(am/pkg/labels.Matchers).String":
+						n++
+						okc, own := onChain(sc.Call.Args[0])
+						o.Check(okc, "rk-shape", "a route key component is the matcher string of something that is not on this route's parent chain: "+e.X(rk, sc), sc)
+						if own {
+							ownSeen = true
+						}
+					case "(*am/dispatch.Route).Key":
+						n++
+						parentSeen = true
+						o.Check(e.Arg(sc, 0) == "recv.parent", "rk-shape", "the recursion must go to the parent, goes to "+e.Arg(sc, 0), sc)
+						o.Guarded(sc, "rk-parent-guard", "recursing into the parent", L("(recv.parent == nil)", false))
+						o.Forced(rk, "rk-parent-forced", "a route with a parent must include the parent's key", IsInstr(sc), L("(recv.parent == nil)", false))
+					default:
+						if _, isB := sc.Call.Value.(*ssa.Builtin); !isB {
+							o.Fail("rk-shape", "a route key component comes from "+calleeName(&sc.Call)+" (only matcher strings and the parent's key may be written)", sc)
+						}
+					}
+				}
+				o.Check(n >= 1, "rk-shape", "a route key component is neither a matcher string nor the parent's key: "+e.X(rk, c.Call.Args[1]), in)
 			}
 		}
 		o.Site(rk.Blocks[0].Instrs[0], "Route.Key writes "+strings.Join(wrote, " , "))
-		want := []string{"(*am/dispatch.Route).Key(recv.parent)", "sep:47", "(am/pkg/labels.Matchers).String(recv.Matchers)"}
-		o.Check(len(wrote) == 3 && wrote[0] == want[0] && wrote[1] == want[1] && wrote[2] == want[2], "rk-shape", "the route key must be parent.Key() + '/' + matchers, writes "+strings.Join(wrote, " , "), nil)
-		for _, c := range e.Calls(rk, "(*am/dispatch.Route).Key") {
-			o.Guarded(c, "rk-parent-guard", "recursing into the parent", L("(recv.parent == nil)", false))
+		o.Check(ownSeen, "rk-shape", "the route's own matchers are not part of its key", nil)
+		if !parentSeen {
+			// iterative form: a loop that follows the parent links until nil, without another exit
+			walked := false
+			for _, l := range e.Loops(rk) {
+				follows := false
+				for bi := range l.Blocks {
+					for _, in := range rk.Blocks[bi].Instrs {
+						if fa, ok := in.(*ssa.FieldAddr); ok && fieldName(fa.X.Type(), fa.Field) == "parent" {
+							follows = true
+						}
+					}
+				}
+				if !follows {
+					continue
+				}
+				hx, okh := l.HeaderExit()
+				lit, okl := e.EdgeLit(l.Header, hx)
+				if okh && okl && lit.Pos && strings.HasSuffix(lit.Atom, " == nil)") && len(e.EarlyExits(l)) == 0 {
+					walked = true
+				}
+			}
+			o.Check(walked, "rk-shape", "the route key must include the ancestors: neither a recursion into the parent nor a walk over the parent links up to the root was found", nil)
 		}
 		// Matchers.String / Matcher.String: no clock / randomness, deterministic order (slice iteration)
 		for _, name := range []string{"(am/pkg/labels.Matchers).String", "(*am/pkg/labels.Matcher).String"} {
